@@ -10,6 +10,8 @@ def main():
     repo = os.environ.get("SYMX_REPO", "/repo")
     if sys.path[0] != repo:
         sys.path.insert(0, repo)
+    import logging
+    logging.disable(logging.CRITICAL)
     import spsdk
     assert spsdk.__file__.startswith(repo + "/"), spsdk.__file__
     from symx.run import run_concrete
